@@ -224,6 +224,9 @@ func (l *LedgerModel) sup(d string) *big.Int {
 // NDenom is the minting denom as the ledger keys it (lower-cased in fold mode).
 func (l *LedgerModel) NDenom() string { return l.norm(l.Denom) }
 
+// Norm is the ledger's own reading of a denom (identity, or lower-casing in fold mode).
+func (l *LedgerModel) Norm(d string) string { return l.norm(d) }
+
 func (l *LedgerModel) norm(d string) string {
 	if l.Fold {
 		return strings.ToLower(d)
